@@ -272,9 +272,9 @@ theorem qinv_runCb_other (s : Stack) (cb : Cb) (hcb : isCollTimeout cb = false) 
     · split
       · exact hi
       · split
-        · exact qinv_stepOffer _ _ _ _ (qinv_frame (qpi_cancelTimer_sleep _ _) hi)
-        · exact qinv_frame ((qpi_stepFind _ _ _).trans (qpi_cancelTimer_sleep _ _)) hi
-        · exact qinv_frame ((qpi_stepSubscribe _ _ _).trans (qpi_cancelTimer_sleep _ _)) hi
+        · exact qinv_stepOffer _ _ _ _ (qinv_frame (qpi_cancelTimer_sleep _ _ _) hi)
+        · exact qinv_frame ((qpi_stepFind _ _ _).trans (qpi_cancelTimer_sleep _ _ _)) hi
+        · exact qinv_frame ((qpi_stepSubscribe _ _ _).trans (qpi_cancelTimer_sleep _ _ _)) hi
 
 theorem qinv_step (s s' : Stack) (e : Event) (h : s.step e = some s') (hi : QInv s) : QInv s' := by
   cases e with
